@@ -165,8 +165,11 @@ def is_heavy(job):
 def split_chunks(jobs, nproc, chunk, wrap):
     heavy = [j for j in jobs if is_heavy(j)]
     light = [j for j in jobs if not is_heavy(j)]
-    chunk = chunk or max(1, min(64, len(light) // (nproc * 4) or 1))
+    chunk = chunk or max(1, min(16, len(light) // (nproc * 8) or 1))
     return [wrap([j]) for j in heavy] + [wrap(light[i:i + chunk]) for i in range(0, len(light), chunk)]
+
+
+FAIL_FAST = 40
 
 
 def run_jobs(rep, modname, jobs, nproc=None, chunk=None):
@@ -180,8 +183,20 @@ def run_jobs(rep, modname, jobs, nproc=None, chunk=None):
     else:
         chunks = split_chunks(jobs, nproc, chunk, lambda js: (modname, js))
         ctx = mp.get_context('fork')
+        res = []
+        nfail = 0
+        done = 0
         with ctx.Pool(nproc) as pool:
-            res = pool.map(_worker, chunks, chunksize=1)
+            # results are consumed as they arrive: on a tree that breaks the property in many cells (where cells may also run into the step budget, i.e. are
+            # slow) the run stops once FAIL_FAST obligations have failed - the verdict is settled, replay files are written for the first 25 anyway
+            for r in pool.imap_unordered(_worker, chunks, chunksize=1):
+                res.append(r)
+                done += 1
+                nfail += sum(1 for ob in r if not ob[2])
+                if nfail >= FAIL_FAST and done < len(chunks):
+                    pool.terminate()
+                    rep.cut_short = getattr(rep, 'cut_short', 0) + (len(chunks) - done)
+                    break
     for r in res:
         for (rule, key, ok, detail, site) in r:
             rep.ob(rule, key, ok, detail, site)
